@@ -55,8 +55,9 @@ def run(ctx):
     own.check_borrowed(ctx, SL + ':' + name, ptypes, {}, borrowed, rule='OWN-RO')
   pairing(ctx)
   adjust_dominance(ctx)
-  from rules import C01
+  from rules import C01, C10
   C01.total_order(ctx, 'PAIR/steps-total-order')
+  C10.kept_total_time(ctx, ctx.func(SL + ':transpose_note_sequence'), 'PAIR/recomputed-total')
 
 
 def determinism(ctx, name, res):
@@ -188,6 +189,7 @@ def adjust_dominance(ctx):
 
 
 MUTANTS = [
+    Mutant('seed C11_e: drum notes no longer count towards the recomputed total_time', F, "      end_time = max(end_time, note.end_time)\n\n      if not note.is_drum:\n        note.pitch += amount\n", "      if not note.is_drum:\n        end_time = max(end_time, note.end_time)\n        note.pitch += amount\n", rule='PAIR/recomputed-total'),
     Mutant('seed C11_b: total_quantized_steps assigned after the notes (absolute)', F,
            '  qns.total_quantized_steps = quantize_to_step(qns.total_time, steps_per_second)\n  _quantize_notes(qns, steps_per_second)\n\n  return qns\n\n\ndef transpose_note_sequence',
            '  _quantize_notes(qns, steps_per_second)\n  qns.total_quantized_steps = quantize_to_step(qns.total_time, steps_per_second)\n\n  return qns\n\n\ndef transpose_note_sequence', rule='PAIR/steps-total-order'),
